@@ -131,7 +131,8 @@ def restart_pairs(ctx, rep):
         seed, pop = ctx.rng.randrange(1 << 30), ctx.rng.choice([8, 9])
         elit = ctx.rng.random() < 0.7
         runs = []
-        for mini, obj in ((True, f), (False, nf)):
+        spelled = ctx.rng.choice([True, np.True_, 1, np.bool_(True)])      # a truthy flag is a truthy flag (numpy comparisons, 0/1 columns of a problem table)
+        for mini, obj in ((spelled, f), (False, nf)):
             opt = getattr(O, kind)(obj, iters=3, pop_size=pop, keep_history=True, random_state=seed, minimization=mini, elitism=elit, no_increase_num=2, **kw)
             opt.fit()
             first = dict(opt.get_fittest())
@@ -140,7 +141,7 @@ def restart_pairs(ctx, rep):
             rep.traces += 2
         rep.count("restart-dual", (kind, seed))
         (oa, fa1), (ob, fb1) = runs
-        case = dict(kind=kind, random_state=seed, pop_size=pop, elitism=elit, fits=2)
+        case = dict(kind=kind, random_state=seed, pop_size=pop, elitism=elit, fits=2, minimization_flag=repr(spelled))
         d = same_stats(oa.get_stats(), ob.get_stats())
         fa, fb = oa.get_fittest(), ob.get_fittest()
         if d or not all(L.same(fa[k], fb[k]) for k in fa) or not all(L.same(fa1[k], fb1[k]) for k in fa1) or oa._thefittest._no_update_counter != ob._thefittest._no_update_counter:
